@@ -48,8 +48,11 @@ def divDigits (dv : Nat) : List Nat → List Nat × Nat
     let dividend := qr.2 * bigBase + d
     (dividend / dv :: qr.1, dividend % dv)
 
-def dropLastZero (ds : List Nat) : List Nat :=
-  if ds.getLast? = some 0 then ds.dropLast else ds
+/-- `if (mant->n && mant->digits[mant->n - 1] == 0) mant->n--;` : drop the most significant digit if it is zero -/
+def dropLastZero : List Nat → List Nat
+  | [] => []
+  | [d] => if d = 0 then [] else [d]
+  | d :: r => d :: dropLastZero r
 
 /-- `bignat_div`.  NOTE the C loop stores the quotient of step i+1 into `digits[i+1]` at step i and the *remainder*
     into `digits[i]`; nothing stores the last quotient, so after the loop `digits[0]` holds the remainder of the step
@@ -233,7 +236,7 @@ def skipExpZeros : List Nat → Bool → List Nat × Bool
 /-- exponent digits: (ee, seenadigit) or error -/
 def scanExpDigits (expBase : Nat) : List Nat → Nat → Bool → Option (Nat × Bool)
   | [], ee, sd => some (ee, sd)
-  | c :: rest, ee, sd =>
+  | c :: rest, ee, _sd =>
     let digit := digitOf c
     if c > 127 ∨ digit ≥ expBase then none
     else scanExpDigits expBase rest (if ee < eeLimit then expBase * ee + digit else ee) true
@@ -252,8 +255,15 @@ def scanPrefix (s : List Nat) : Option (Nat × List Nat) :=
     else some (0, s)
   | _ => some (0, s)
 
-/-- `janet_scan_number_base(str, len, base, &out)`: `some bits` on success (return 0), `none` on error (return 1) -/
-def scanNumberBase (str : List Nat) (base : Nat) : Option Nat :=
+/-- what the scanner hands to `convert` -/
+structure Parsed where
+  neg : Bool
+  mant : BigNat
+  base : Nat
+  ex : Int
+
+/-- length check, sign and radix prefix of `janet_scan_number_base`: (neg, base, rest) -/
+def numHeader (str : List Nat) (base : Nat) : Option (Bool × Nat × List Nat) :=
   if str.length > lenLimit then none
   else
     match str with
@@ -263,35 +273,51 @@ def scanNumberBase (str : List Nat) (base : Nat) : Option Nat :=
       let pre := if base = 0 then scanPrefix s1 else some (base, s1)
       match pre with
       | none => none
-      | some (b0, s2) =>
-        let b := if b0 = 0 then 10 else b0
-        let st0 : ScanSt := { base := b, expBase := b, ex := 0, seenpoint := false, seenadigit := false,
-                              foundexp := false, mant := BigNat.zero }
-        match skipZeros s2 st0 with
-        | none => none
-        | some (s3, st1) =>
-          match scanDigits s3 st1 with
-          | none => none
-          | some (s4, st2) =>
-            if !st2.seenadigit then none
-            else
-              match s4 with
-              | [] => some (convert neg st2.mant st2.base st2.ex)
-              | _marker :: s5 =>
-                if !st2.foundexp then some (convert neg st2.mant st2.base st2.ex)  -- unreachable: loop only stops at a marker
-                else
-                  match s5 with
-                  | [] => none
-                  | c5 :: r5 =>
-                    let (eneg, s6) := if c5 = 45 then (true, r5) else if c5 = 43 then (false, r5) else (false, s5)
-                    let (s7, sd) := skipExpZeros s6 false
-                    match scanExpDigits st2.expBase s7 0 sd with
-                    | none => none
-                    | some (ee, sd2) =>
-                      if !sd2 then none
-                      else
-                        let ex := if eneg then st2.ex - ee else st2.ex + ee
-                        some (convert neg st2.mant st2.base ex)
+      | some (b0, s2) => some (neg, if b0 = 0 then 10 else b0, s2)
+
+/-- exponent part (after the marker): the final exponent, or error -/
+def parseExponent (st2 : ScanSt) (s5 : List Nat) : Option Int :=
+  match s5 with
+  | [] => none
+  | c5 :: r5 =>
+    let (eneg, s6) := if c5 = 45 then (true, r5) else if c5 = 43 then (false, r5) else (false, s5)
+    let (s7, sd) := skipExpZeros s6 false
+    match scanExpDigits st2.expBase s7 0 sd with
+    | none => none
+    | some (ee, sd2) =>
+      if !sd2 then none
+      else some (if eneg then st2.ex - ee else st2.ex + ee)
+
+/-- digits and exponent of `janet_scan_number_base` -/
+def parseBody (neg : Bool) (b : Nat) (s2 : List Nat) : Option Parsed :=
+  let st0 : ScanSt := { base := b, expBase := b, ex := 0, seenpoint := false, seenadigit := false,
+                        foundexp := false, mant := BigNat.zero }
+  match skipZeros s2 st0 with
+  | none => none
+  | some (s3, st1) =>
+    match scanDigits s3 st1 with
+    | none => none
+    | some (s4, st2) =>
+      if !st2.seenadigit then none
+      else
+        match s4 with
+        | [] => some ⟨neg, st2.mant, st2.base, st2.ex⟩
+        | _marker :: s5 =>
+          if !st2.foundexp then some ⟨neg, st2.mant, st2.base, st2.ex⟩  -- unreachable: the loop only stops at a marker
+          else
+            match parseExponent st2 s5 with
+            | none => none
+            | some ex => some ⟨neg, st2.mant, st2.base, ex⟩
+
+/-- the scanning part of `janet_scan_number_base(str, len, base, &out)`: `none` = `goto error` -/
+def parseNumber (str : List Nat) (base : Nat) : Option Parsed :=
+  match numHeader str base with
+  | none => none
+  | some (neg, b, s2) => parseBody neg b s2
+
+/-- `janet_scan_number_base`: `some bits` on success (return 0), `none` on error (return 1) -/
+def scanNumberBase (str : List Nat) (base : Nat) : Option Nat :=
+  (parseNumber str base).map (fun p => convert p.neg p.mant p.base p.ex)
 
 /-! ## 64-bit integer scanning -/
 
@@ -324,8 +350,8 @@ def scanIntPrefix (s : List Nat) : Option (Nat × List Nat) :=
     else some (10, s)
   | _ => some (10, s)
 
-/-- `scan_uint64`: (value, neg) -/
-def scanUint64Core (str : List Nat) : Option (Nat × Bool) :=
+/-- length check, sign, radix prefix and leading zeros of `scan_uint64`: (neg, base, rest, seenadigit) -/
+def intHeader (str : List Nat) : Option (Bool × Nat × List Nat × Bool) :=
   if str.length > intLenLimit then none
   else
     match str with
@@ -336,9 +362,16 @@ def scanUint64Core (str : List Nat) : Option (Nat × Bool) :=
       | none => none
       | some (base, s2) =>
         let (s3, sd) := skipIntZeros s2 false
-        match scanU64Digits base s3 0 sd with
-        | none => none
-        | some (accum, sd2) => if sd2 then some (accum, neg) else none
+        some (neg, base, s3, sd)
+
+/-- `scan_uint64`: (value, neg) -/
+def scanUint64Core (str : List Nat) : Option (Nat × Bool) :=
+  match intHeader str with
+  | none => none
+  | some (neg, base, s3, sd) =>
+    match scanU64Digits base s3 0 sd with
+    | none => none
+    | some (accum, sd2) => if sd2 then some (accum, neg) else none
 
 /-- `janet_scan_int64` -/
 def scanInt64 (str : List Nat) : Option Int :=
